@@ -42,10 +42,19 @@ def concrete(inp):
                 cp = p * c1.get_specific_heat(T) / c1.molecular_weight + (1 - p) * c2.get_specific_heat(T) / c2.molecular_weight
                 want = T - m.feed_evaporation_heat[k] / (cp * m.feed_mass[k])
             else:
-                want = cond.temperature_program.program((k + 1) * dt)
+                want = _program_value(cond.temperature_program.type, list(cond.temperature_program.coefficients), (k + 1) * dt)
             if not close(m.feed_temperature[k + 1], want, 1e-9, 1e-9):
                 bad.append("T[%d]=%r, expected %r" % (k + 1, m.feed_temperature[k + 1], want))
     return {"ok": not bad, "detail": "%s %s: %s" % (inp["kind"], inp.get("mixture"), "; ".join(bad[:3])), "inputs": inp}
+
+
+def _program_value(kind, c, t):
+    """the three temperature programmes as stated (independent of the repository's implementation)"""
+    import math
+    if kind == "polynomial":
+        return sum(ci * t ** i for i, ci in enumerate(c))
+    inner = sum(c[i] * t ** (i - 1) for i in range(1, len(c)))
+    return c[0] * (math.exp(inner) if kind == "exponential" else math.log(inner))
 
 
 def concrete_twin(inp):
@@ -81,10 +90,11 @@ def heat(job, kind, mode, tier):
              "HVAP_i(T), CP_i(T), COOL_i(t0,t1) for Component.get_vaporisation_heat / get_specific_heat / get_cooling_heat",
              "find_best_fit -> symbolic PervaporationFunction (non-ideal)", "EA_i for Membrane.calculate_activation_energy")
     job.assume("Composition validator and Permeance clamp as assumptions", "A, m0, dt > 0; 0 < x0 < 1; 273 < T0 < 400; denominators non-zero")
+    job.bound(temperature_programme_coefficients=5)
     ps0 = None
     for basis, program, n_curves, init_perm in configs(kind, mode, tier):
         for N in Ns:
-            ps = proc.ProcSetup(kind, mode, basis, program, N, n_curves=n_curves or 2, initial_permeances=bool(init_perm))
+            ps = proc.ProcSetup(kind, mode, basis, program, N, n_curves=n_curves or 2, initial_permeances=bool(init_perm), ncoef=5)
             dom = ps.domain()
             inputs = ps.inputs()
             fb = [dict(f) for f in realrun.proc_fallback(mode, program)]
@@ -126,7 +136,7 @@ def heat(job, kind, mode, tier):
                                           congruence=["EXP", "LOG"], near=2)
                     job.twin_sat(tag + "/twin", cs)
                 if not got:
-                    job.vacuity["failed"].append(tag + ": no returning path")
+                    job.unreached(tag)
     for f in realrun.proc_fallback(mode)[:1]:
         if kind.startswith("non_ideal") and tier == "quick":
             continue
@@ -178,7 +188,7 @@ def twin(job, family, mode, tier):
                     job.record(tag + "/condensation_reported_alike", "discharged" if na == nb else "violated", "", nontrivial=False,
                                replay={"fn": "vf.props.C03:concrete_twin", "inputs": dict(fb[0], kind=kinds[0], mode=mode, basis=basis, N=1)})
                 if not got:
-                    job.vacuity["failed"].append(tag)
+                    job.unreached(tag)
 
 
 JOB_TIMEOUT = {"quick": 400, "thorough": 3000}
